@@ -101,6 +101,9 @@ impl Signature {
         let k256_recovery = id.try_into().map_err(|e| BSVErrors::PublicKeyRecoveryError("".into(), e))?;
 
         let recoverable_sig = recoverable::Signature::new(&self.sig, k256_recovery)?;
+        if digest.len() != 32 {
+            return Err(BSVErrors::PublicKeyRecoveryError(format!("Digest must be 32 bytes long, got {}", digest.len()), ecdsa::Error::new()));
+        }
         let verify_key = match recoverable_sig.recover_verify_key_from_digest_bytes(GenericArray::from_slice(digest)) {
             Ok(v) => v,
             Err(e) => {
